@@ -35,7 +35,7 @@ namespace Client
 inductive EKind where
   | io                                   -- `ErrorKind::Io(_)`
   | connectionClosed
-  | badJson                              -- `SerdeJsonSer(_)` from `from_slice::<Reply>`
+  | badJson                              -- `SerdeJsonSer(_)`: a reply that is not JSON / does not decode, or a request that does not serialize
   | interfaceNotFound (s : String)
   | invalidParameter (s : String)
   | methodNotFound (s : String)
@@ -80,6 +80,9 @@ structure MCall where
   reader : Bool := false
   writer : Bool := false
   continues : Bool := false
+  /-- `serde_json::to_value(request)` fails (the request type's `Serialize` returns an error,
+      e.g. a map with non-string keys): a parameter of the call object -/
+  unser : Bool := false
 deriving Repr, DecidableEq, Inhabited
 
 /-- `MethodCall::new` -/
@@ -140,7 +143,9 @@ def mkRequest (method : String) (params : Json) (oneway more upgrade : Bool) : R
     upgrade := if upgrade then some true else none }
 
 /-- `MethodCall::send` (lib.rs 1062-1106), step by step:
-    take method and request; refuse when they are gone; refuse when the
+    take method and request; refuse when they are gone; serialize the request
+    (`to_value(request)?`: on failure return `SerdeJsonSer` — the call object is
+    spent, the connection has not been looked at yet); refuse when the
     connection's slots are not both present (the call object stays spent);
     move the reader unless oneway; take the writer; write; put the writer back
     into the connection (oneway) or into the call.  `none` = `Ok(())`. -/
@@ -148,7 +153,8 @@ def send (p : Peer) (oneway more upgrade : Bool) (s : CS) : Option EKind × CS :
   let spent : MCall := { s.call with method := none, request := none }
   match s.call.method, s.call.request with
   | some meth, some params =>
-    if !s.conn.reader || !s.conn.writer then
+    if s.call.unser then (some .badJson, { s with call := spent })
+    else if !s.conn.reader || !s.conn.writer then
       (some .connectionBusy, { s with call := spent })
     else
       let rq := mkRequest meth params oneway more upgrade
